@@ -1107,3 +1107,40 @@ package core
 //@   loop 1 invariant ghost(reattached)[self.split_metadata] > old(ghost(reattached)[self.split_metadata]) && ghost(reattached)[self.join_metadata] > old(ghost(reattached)[self.join_metadata])
 //@   loop 1 invariant forall j :: 0 <= j && j < iter ==> ghost(reattached)[self.chunks[j].metadata] > old(ghost(reattached)[self.chunks[j].metadata])
 //@   loop 1 invariant self.split_metadata == old(self.split_metadata) && self.join_metadata == old(self.join_metadata) && forall j :: 0 <= j && j < len(self.chunks) ==> self.chunks[j] == old(self.chunks[j]) && self.chunks[j].metadata == old(self.chunks[j].metadata)
+
+// ---------------------------------------------------------------- C04 / C14 a fork added at run time inherits the keep-alive tables, as copies
+// cloneFork: the new fork starts with the template fork's fileArgs and filePostNodes - every
+// argument with its holders (also when nobody is a post-node: top-level outputs and retained
+// files are held in fileArgs only), every post-node with its arguments - in tables of its own:
+// the forks edit their tables independently, so none may be shared.
+//@ func core.NewFork property C04 C14
+//@   trusted
+//@   modifies key(ALLOC), ghost(readinto), ghost(nuniq), ghost(lastuniq)
+//@   ensures result != nil && fresh(result) && result.fileArgs == nil && result.filePostNodes == nil
+
+//@ func core.cloneFork property C04 C14
+//@   requires fork != nil
+//@   requires @wf forall k string :: has(fork.fileArgs, k) && fork.fileArgs[k] != nil ==> alloc(fork.fileArgs[k])
+//@   requires @wf2 forall n core.Nodable :: has(fork.filePostNodes, n) && fork.filePostNodes[n] != nil ==> alloc(fork.filePostNodes[n])
+//@   ensures @args forall k string :: old(has(fork.fileArgs, k)) ==> result.fileArgs != nil && has(result.fileArgs, k) && (old(fork.fileArgs[k]) == nil ==> result.fileArgs[k] == nil) && (old(fork.fileArgs[k]) != nil ==> result.fileArgs[k] != nil && fresh(result.fileArgs[k]))
+//@   ensures @holders forall k string, n core.Nodable :: old(has(fork.fileArgs, k)) && old(fork.fileArgs[k]) != nil && old(has(fork.fileArgs[k], n)) ==> has(result.fileArgs[k], n)
+//@   ensures @postnodes forall n core.Nodable :: old(has(fork.filePostNodes, n)) ==> result.filePostNodes != nil && has(result.filePostNodes, n) && (old(fork.filePostNodes[n]) != nil ==> result.filePostNodes[n] != nil && fresh(result.filePostNodes[n]))
+//@   ensures @postargs forall n core.Nodable, a string :: old(has(fork.filePostNodes, n)) && old(fork.filePostNodes[n]) != nil && old(has(fork.filePostNodes[n], a)) ==> has(result.filePostNodes[n], a)
+//@   loop 1 invariant nf != nil && !old(alloc(nf)) && nf.fileArgs != nil && fresh(nf.fileArgs) && fork.fileArgs == old(fork.fileArgs) && fork.filePostNodes == old(fork.filePostNodes)
+//@   loop 1 invariant forall k string :: has(fork.fileArgs, k) == old(has(fork.fileArgs, k)) && fork.fileArgs[k] == old(fork.fileArgs[k])
+//@   loop 1 invariant forall k string, n core.Nodable :: old(has(fork.fileArgs, k)) && old(fork.fileArgs[k]) != nil ==> has(fork.fileArgs[k], n) == old(has(fork.fileArgs[k], n))
+//@   loop 1 invariant forall k string :: visited(k) ==> has(nf.fileArgs, k) && (old(fork.fileArgs[k]) == nil ==> nf.fileArgs[k] == nil) && (old(fork.fileArgs[k]) != nil ==> nf.fileArgs[k] != nil && fresh(nf.fileArgs[k]) && alloc(nf.fileArgs[k]))
+//@   loop 1 invariant forall k string, n core.Nodable :: visited(k) && old(fork.fileArgs[k]) != nil && old(has(fork.fileArgs[k], n)) ==> has(nf.fileArgs[k], n)
+//@   loop 2 invariant nm != nil && !old(alloc(nm)) && forall n core.Nodable :: visited(n) ==> has(nm, n)
+//@   loop 3 invariant nf != nil && !old(alloc(nf)) && nf.filePostNodes != nil && fresh(nf.filePostNodes) && fork.filePostNodes == old(fork.filePostNodes)
+//@   loop 3 invariant forall k string :: old(has(fork.fileArgs, k)) ==> nf.fileArgs != nil && has(nf.fileArgs, k) && (old(fork.fileArgs[k]) == nil ==> nf.fileArgs[k] == nil) && (old(fork.fileArgs[k]) != nil ==> nf.fileArgs[k] != nil && fresh(nf.fileArgs[k]))
+//@   loop 3 invariant forall k string, n core.Nodable :: old(has(fork.fileArgs, k)) && old(fork.fileArgs[k]) != nil && old(has(fork.fileArgs[k], n)) ==> has(nf.fileArgs[k], n)
+//@   loop 3 invariant forall n core.Nodable :: has(fork.filePostNodes, n) == old(has(fork.filePostNodes, n)) && fork.filePostNodes[n] == old(fork.filePostNodes[n])
+//@   loop 3 invariant forall n core.Nodable, a string :: old(has(fork.filePostNodes, n)) && old(fork.filePostNodes[n]) != nil ==> has(fork.filePostNodes[n], a) == old(has(fork.filePostNodes[n], a))
+//@   loop 3 invariant forall n core.Nodable :: visited(n) ==> has(nf.filePostNodes, n) && (old(fork.filePostNodes[n]) != nil ==> nf.filePostNodes[n] != nil && fresh(nf.filePostNodes[n]) && alloc(nf.filePostNodes[n]))
+//@   loop 3 invariant forall n core.Nodable, a string :: visited(n) && old(fork.filePostNodes[n]) != nil && old(has(fork.filePostNodes[n], a)) ==> has(nf.filePostNodes[n], a)
+//@   loop 4 invariant nm != nil && !old(alloc(nm)) && forall a string :: visited(a) ==> has(nm, a)
+//@   loop 4 invariant forall n core.Nodable, a string :: old(has(fork.filePostNodes, n)) && old(fork.filePostNodes[n]) != nil ==> has(fork.filePostNodes[n], a) == old(has(fork.filePostNodes[n], a))
+//@   loop 2 invariant forall k string, n core.Nodable :: old(has(fork.fileArgs, k)) && old(fork.fileArgs[k]) != nil ==> has(fork.fileArgs[k], n) == old(has(fork.fileArgs[k], n))
+//@   loop 2 invariant forall k string, n core.Nodable :: has(nf.fileArgs, k) && nf.fileArgs[k] != nm ==> has(nf.fileArgs[k], n) == atloop(has(nf.fileArgs[k], n))
+//@   loop 4 invariant forall n core.Nodable, a string :: has(nf.filePostNodes, n) && nf.filePostNodes[n] != nm ==> has(nf.filePostNodes[n], a) == atloop(has(nf.filePostNodes[n], a))
